@@ -124,7 +124,8 @@ SPEC = dict(
     level_note="Proved about the hand-written model; model-to-code tie is differential over the enumerated cell space "
                "(exhaustive in type x from x payload catalogue per configuration, seeded in spellings and partly in id/entry/phase). "
                "Nine managers violated the property until repo commits 28afc7a 318b7cf 1833c1a 29beb7d 88fc5c1 daa6e10 7916dee "
-               "e597fe7 af7bef7 (known_findings.json: fixed); their oracle keys are kept, a recurrence is a violation.",
+               "e597fe7 af7bef7, and a declined transfer job could be re-opened and crash the client until 31a1bb4 (known_findings.json: "
+               "fixed); their oracle keys and witnesses are kept, a recurrence is a violation.",
     design_ref="5.8",
     technique="Lean 4: chain-lifting lemma + per-handler case analysis over an abstract DOM; translator for handler sites; "
               "model/implementation correspondence on the real QXmppClient",
